@@ -101,6 +101,8 @@ mod shared;
 mod sqlx;
 mod time;
 mod util;
+#[cfg(astrolabe_verif)]
+pub mod verif;
 
 pub use self::cron::CronSchedule;
 pub use self::date::Date;
